@@ -37,7 +37,7 @@ def gates(c, tier):
     for k in ("outcome:accepted", "outcome:FilterSyntaxError"):
         if tot and c.get(k, 0) < 0.1 * tot:
             out.append(f"{k} below 10% of cases ({c.get(k, 0)}/{tot})")
-    for k in ("part:random", "part:edits", "part:unbalanced", "part:extra-data", "part:escape-shapes", "part:nest", "part:surrogates", "accepted-tree-walked", "accepted-reparsed", "offsets-checked"):
+    for k in ("part:random", "part:edits", "part:unbalanced", "part:extra-data", "part:escape-shapes", "part:many-components", "part:nest", "part:surrogates", "accepted-tree-walked", "accepted-reparsed", "offsets-checked"):
         if c.get(k, 0) == 0:
             out.append(f"never ran {k}")
     return out
@@ -210,6 +210,11 @@ def _run_shard(ctx: Ctx, acc: Acc):
         for comp in ("\\5c2a", "\\5c5c", "\\2a", "\\5c", "a\\5c2ab", "\\5C28", "\\5c\\32a"):
             for shape in ("(cn={c}*)", "(cn=*{c})", "(cn=a*{c})", "(cn={c}*b)", "(cn=a*{c}*b)", "(cn=*{c}*)", "(&(cn=a*{c})(sn=x))", "(cn={c})", "(cn>={c})"):
                 do("escape-shapes", shape.format(c=comp))
+    # substring items with hundreds of components (list positions beyond any small-number special case)
+    if ctx.shard % 4 == 1:
+        for k in (254, 255, 256, 257, 258, 259, 300, 1000):
+            for shape in ("(cn=i*{m}f)", "(cn=*{m}f)", "(cn=i*{m})", "(cn=*{m})", "(&(cn=i*{m}f)(sn=x))"):
+                do("many-components", shape.format(m="".join(f"v{j % 10}*" for j in range(k))))
     # text after a complete filter, with multi-byte characters at every alignment (error reporting must stay total)
     for j in range(max(1, n // 4000)):
         r = ctx.rng("extra", j)
